@@ -67,9 +67,21 @@ func refApply(casing, w string) string {
 	return w
 }
 
+// asciiUpper upper-cases the ASCII letters only, so that byte offsets in the result are byte
+// offsets in s (the two marker words are ASCII; other letters are just template text).
+func asciiUpper(s string) string {
+	b := []byte(s)
+	for i, c := range b {
+		if 'a' <= c && c <= 'z' {
+			b[i] = c - 'a' + 'A'
+		}
+	}
+	return string(b)
+}
+
 // refRender returns (result, ok); ok=false means the template must be rejected.
 func refRender(tpl, id string) (string, bool) {
-	up := strings.ToUpper(tpl)
+	up := asciiUpper(tpl)
 	ig, id2 := strings.Index(up, "GO"), strings.Index(up, "DESIGNER")
 	if ig < 0 || id2 < 0 || ig > id2 {
 		return "", false
@@ -122,6 +134,8 @@ func templates() []string {
 			}
 		}
 	}
+	// non-ASCII template text around the words, incl. letters whose upper-case form has another length
+	out = append(out, "ɐgo_designer", "ſgo_designerı", "中go世designer文", "ɐɐɐɐɐɐɐɐɐgodesigner", "éGo-Designerɐ")
 	out = append(out, "", "go", "designer", "designer_go", "designergo", "godesigner_go", "go_go_designer", "go_designer_designer", "g_o_designer", "go_design", "GOdesigner", "Godesigner")
 	return out
 }
@@ -154,7 +168,7 @@ func TestVerifNamingFormat(t *testing.T) {
 			class := "rejected"
 			if ok {
 				class = fmt.Sprintf("words=%d", len(refWords(id)))
-				g, _ := refCasing(tpl[strings.Index(strings.ToUpper(tpl), "GO"):][:2])
+				g, _ := refCasing(tpl[strings.Index(asciiUpper(tpl), "GO"):][:2])
 				class += "/" + g
 			}
 			c.Eval(class, func() any {
@@ -190,7 +204,10 @@ func TestVerifNamingFormat(t *testing.T) {
 	}
 	// adversarial inputs: only panic-freedom and determinism are claimed
 	if vrt.Shard(0) {
-		for _, tpl := range []string{"go_designer", "ßgo_designer", "ǆgo_designer", "go_designer中", "İgo_designer", "go\x00designer", "GOéDESIGNER", "ﬁgoﬁdesigner"} {
+		for _, tpl := range []string{"go_designer", "ßgo_designer", "ǆgo_designer", "go_designer中", "İgo_designer", "go\x00designer", "GOéDESIGNER", "ﬁgoﬁdesigner",
+			// letters whose upper-case form has another UTF-8 length (offsets found in the upper-cased
+			// template do not fit the template itself)
+			"ɐgo_designer", "ɐɐɐɐɐɐɐɐɐgodesigner", "ſgo_designer", "ıgo_designer", "go_designerɐ", "ɐɐɐɐɐɐɐɐɐɐɐɐGO_DESIGNER"} {
 			for _, id := range []string{"", "中文", "é_É", "a__b", "_", "__", "ABC", "aBC_d", "\x00", "a\xffb", "İx", "ǅa"} {
 				var pan any
 				var g1, g2 string
